@@ -135,6 +135,12 @@ class Engine:
                 acc = it.and_(acc, it.truth(it.equal(x, y)))
         return it.wrap_bool(acc)
 
+    def dict_key(self, key):
+        """Key of a DictOpt shape -> the engine's value for it."""
+        if isinstance(key, specmod.EnumKey):
+            return VEnum(key.cls, key.member)
+        return key
+
     def uf(self, name, *sorts):
         if name not in self.ufs:
             self.ufs[name] = z3.Function(name, *sorts)
@@ -339,7 +345,7 @@ class Engine:
             for key, vshape in shape.entries.items():
                 kn = repr(key).replace(" ", "")
                 has = True if key in shape.always else z3.Bool(f"{name}.has[{kn}]")
-                d.entries[key] = [has, self.make_sym(ctx, vshape, f"{name}[{kn}]")]
+                d.entries[self.dict_key(key)] = [has, self.make_sym(ctx, vshape, f"{name}[{kn}]")]
             return ctx.alloc(d)
         if k == "setseq":
             n = z3.Int(name + ".len")
@@ -411,6 +417,9 @@ class Engine:
             return None
         if k == "opaque":
             return None
+        if k == "dictopt":
+            return {key: (self.make_arrays(ctx, specmod.Bool, f"{name}.has[{key!r}]", idx_sort),
+                          self.make_arrays(ctx, vs, f"{name}[{key!r}]", idx_sort)) for key, vs in shape.entries.items()}
         raise Unsupported(f"array of {k}")
 
     def fresh_like(self, ctx, v, name):
@@ -573,6 +582,20 @@ class Engine:
             n = max(0, min(n, 12))
             return {"list": [self.val_json(ctx, None, v.get(z3.IntVal(i)), model) for i in range(n)],
                     "len": self.zval(model, v.length).as_long()}
+        if isinstance(v, SymMap):
+            cands = set(range(-4, 12))
+            for dcl in model.decls():
+                try:
+                    val = model[dcl]
+                    if z3.is_int_value(val):
+                        cands.add(val.as_long())
+                except Exception:  # pylint: disable=broad-except
+                    pass
+            out = []
+            for kk in sorted(cands):
+                if z3.is_true(self.zval(model, z3.Select(v.dom, z3.IntVal(kk)))):
+                    out.append([kk, self.val_json(ctx, None, v.get(z3.IntVal(kk)), model)])
+            return {"dict": out}
         if isinstance(v, SymSet):
             cands = set(range(-4, 12))
             for _, (sh, iv) in ctx.input_syms.items():
@@ -1283,6 +1306,7 @@ class ArrShape:
         self.engine = engine
         self.shape = shape
         self.mode = ctx.mode
+        self.ctx = ctx
 
     def select(self, arrays, i, shape=None):
         shape = shape or self.shape
@@ -1305,8 +1329,15 @@ class ArrShape:
             return VQty(shape.unit, S(z3.Select(arrays, i), "fp" if self.mode == "ieee" else "real"))
         if k == "opt":
             return VOpt(z3.Select(arrays[0], i), self.select(arrays[1], i, shape.inner))
-        if k == "rec":
+        if k in ("rec", "obj"):
+            # (an object stored in a symbolic map is read as an immutable record)
             return VRec(shape.cls, {f: self.select(arrays[f], i, s) for f, s in shape.fields.items()})
+        if k == "dictopt":
+            d = HOptDict()
+            for key, vs in shape.entries.items():
+                has = True if key in shape.always else z3.Select(arrays[key][0], i)
+                d.entries[self.engine.dict_key(key)] = [has, self.select(arrays[key][1], i, vs)]
+            return self.ctx.alloc(d)
         if k == "tup":
             return tuple(self.select(a, i, s) for a, s in zip(arrays, shape.items))
         if k == "enum":
